@@ -321,7 +321,9 @@ class Ctx:
             else:
                 unknown.append(v)
         os.makedirs(os.path.join(EVIDENCE, "replay"), exist_ok=True)
-        for i, v in enumerate(unknown):
+        if len(unknown) > 12:
+            print("(%d distinct violations; reporting the first 12)" % len(unknown))
+        for i, v in enumerate(unknown[:12]):
             path = os.path.join(EVIDENCE, "replay", "%s-%d-%d.json" % (self.prop, self.seed, i))
             with open(path, "w") as f:
                 json.dump({"property": self.prop, "seed": self.seed, "tier": self.tier, **v}, f, indent=1)
